@@ -89,3 +89,5 @@ require (
 replace github.com/aperturerobotics/bifrost => /repo
 
 replace github.com/aperturerobotics/util => ../.work/util
+
+replace github.com/aperturerobotics/controllerbus => ../.work/controllerbus
